@@ -177,6 +177,55 @@ def oracle_invariance(ck, tier, deep):
             if val.shape != base.shape or np.abs(val - base)[:, good].max() > tol:
                 ck.violation(dict(site="Distributions", clause=name), rep,
                              f"{name}: results differ by {np.abs(val - base)[:, good].max() if val.shape == base.shape else 'shape'}")
+    # the same invariances where no folding happens (origin in a corner or on an edge), up to rmax='all', with and without weights,
+    # and for the same pixels stored column-major (transposed views, np.rot90, Fortran/MATLAB data): layout is not part of the image
+    for it in range(60 if not deep else 600):
+        h, w = (int(v) for v in rng.integers(15, 36, size=2))
+        odd = bool(rng.integers(0, 2))
+        order = int(rng.choice([1, 3] if odd else [0, 2, 4]))
+        row = int(rng.choice([0, h - 1])) if not odd else int(rng.integers(4, h - 4))
+        col = int(rng.choice([0, w - 1]))
+        method = ["nearest", "linear"][int(rng.integers(0, 2))]
+        usin = bool(rng.integers(0, 2))
+        yy, xx = np.mgrid[:h, :w]
+        r = np.hypot(yy - row, xx - col)
+        im = np.exp(-(r - 9) ** 2 / 18) * (1 + 0.5 * (row - yy) / np.maximum(r, 1)) + 0.1 * rng.random((h, w))
+        wt = None if rng.random() < 0.5 else rng.random((h, w)) + 0.3
+        rmax = ["MAX", "all", "MIN", int(rng.integers(12, 30))][int(rng.integers(0, 4))]
+        kw = dict(order=order, odd=odd, use_sin=usin, method=method)
+        ck.count(("S.inv-edge", order, odd, method, usin, wt is None, str(rmax)), suite="S.invariances")
+        rep = dict(shape=[h, w], origin=[row, col], rmax=rmax, weights=wt is not None, **kw)
+        run = lambda IM, W, origin, rm=rmax: quiet(Distributions(origin=origin, rmax=rm, weights=W, **kw).image, IM).cos()
+        F = lambda a: None if a is None else np.asfortranarray(a)
+        V = lambda a: None if a is None else np.ascontiguousarray(a.T).T
+        try:
+            base = run(im, wt, (row, col))
+            # radii where the fit is well conditioned: enough pixels and angular range — judged on the reference itself (finite values)
+            good = np.arange(base.shape[1]) >= 6
+            good &= np.all(np.isfinite(base), axis=0)
+            good &= np.arange(base.shape[1]) <= min(max(row, h - 1 - row), max(col, w - 1 - col))
+            checks = {
+                "stored-column-major": run(F(im), F(wt), (row, col)),
+                "stored-as-transposed-view": run(V(im), V(wt), (row, col)),
+                "mirror-left-right": run(np.ascontiguousarray(im[:, ::-1]), None if wt is None else np.ascontiguousarray(wt[:, ::-1]), (row, w - 1 - col)),
+                "mirror-left-right-column-major": run(F(im[:, ::-1]), F(None if wt is None else wt[:, ::-1]), (row, w - 1 - col)),
+                "origin-negative": run(im, wt, (row - h, col - w)),
+            }
+            if isinstance(rmax, int):
+                checks["larger-rmax"] = run(im, wt, (row, col), rmax + 4)[:, :base.shape[1]]
+            tb = run(im[::-1], None if wt is None else wt[::-1], (h - 1 - row, col))
+            sign = np.array([(-1) ** n for n in (range(order + 1) if odd else range(0, order + 1, 2))])[:, None]
+            checks["mirror-top-bottom"] = tb * sign
+        except Exception as e:
+            ck.violation(dict(site="Distributions", clause="exception"), rep, f"{type(e).__name__}: {e}")
+            continue
+        if not good.any():
+            continue
+        tol = 1e-8 * max(1.0, np.abs(base[:, good]).max())
+        for name, val in checks.items():
+            if val.shape != base.shape or not (np.abs(val - base)[:, good].max() <= tol):
+                ck.violation(dict(site="Distributions", clause=name), rep,
+                             f"{name} (origin on the frame's edge): results differ by {np.abs(val - base)[:, good].max() if val.shape == base.shape else 'shape'}")
     # origin strings vs tuples on exact geometry
     for name, fn in (("center", lambda h, w: (h // 2, w // 2)), ("ul", lambda h, w: (0, 0)), ("lr", lambda h, w: (h - 1, w - 1)),
                      ("cl", lambda h, w: (h // 2, 0)), ("top center", lambda h, w: (0, w // 2)), ("bottom right", lambda h, w: (h - 1, w - 1))):
